@@ -184,13 +184,9 @@ class AnnounceOracle:
                 self.started = True
                 for i in self.order:
                     self._start(i, T)
-        elif f == "conn_lost":
-            # connection_lost() hands its parts to call_soon(): the announcer stops one loop
-            # iteration later (see walk)
-            if not self.conn_lost:
+        elif f in ("stop", "ann_stop", "conn_lost"):
+            if f == "conn_lost":
                 self.conn_lost = True
-                self.deferred_stop = self.cur_it
-        elif f in ("stop", "ann_stop", "conn_lost-now"):
             if self.started:
                 self.started = False
                 for i in self.insts:
@@ -375,6 +371,7 @@ class AnnounceOracle:
             if x is not None:
                 x["done"] = x["consumed"] = True
             self.viol("NO-OFFER-AFTER-STOP", f"offer for {ins.key} to {dst[0]} at {T:.6f} after it was stopped at {ins.t_stop}", cause)
+            self.viol("ANSWER", f"stopped instance {ins.key} answered a FindService of {dst[0]} at {T:.6f} (stopped at {ins.t_stop})", "from-stopped-instance:" + cause)
             return
         self._content(ins, e, f"find answer to {dst[0]}")
         # which request it answers is decided at the end, by matching (see finish())
@@ -487,9 +484,6 @@ class AnnounceOracle:
         self.deferred_stop = None
         for idx, (seq, it, T, actor, kind, data) in enumerate(log):
             self.cur_it = it
-            if self.deferred_stop is not None and (it > self.deferred_stop or kind == "idle"):
-                self.deferred_stop = None
-                self.on_op(T, ("call", -1, "conn_lost-now", ()), None)
             if kind == "idle":
                 self.on_idle(T)
             elif kind == "busy":
